@@ -117,7 +117,8 @@ def plan(pid, tier):
             jobs = [grid_job("capacity-compositions", "capacity", 18, tier, budget=600), grid_job("growth-workloads", "growth", 18, tier, budget=900, slab_mb=192, threads=8),
                     arena_job("chunk-capacity-probe-d4", "capprobe", 18, 4, 1, 500, tier, min_aligns="1,8,16"), arena_job("chunk-capacity-probe-d3-dev2", "capprobe", 18, 3, 2, 300, tier),
                     grid_job("vec-string-capacity", "vecgrowth", 18, tier, slab_mb=64)]
-        return {"level": "exploration", "jobs": jobs, "owns_crashes": False, "rule": RULE_GRID + "; plus BFS over arena histories with a terminal probe of exactly chunk_capacity() bytes under a refusing allocator",
+        jobs.append(grid_job("chunk-size-under-size-dependent-refusal", "retry", 18, tier))
+        return {"level": "exploration", "jobs": jobs, "owns_crashes": False, "rule": RULE_GRID + "; plus BFS over arena histories with a terminal probe of exactly chunk_capacity() bytes under a refusing allocator; plus a grid of 270 cases (3 minimum alignments x refusal thresholds 2^9..2^18 x 3 requests x 3 constructors) in which the newest chunk is filled and the allocator refuses a doubled chunk but would grant one of the same size: the chunk obtained must not be smaller than the last",
                 "assumptions": ARENA_ASSUME + ["'logarithmic' and 'constant factor' are decided on a finite workload grid (volumes up to 2^22 quick / 2^26 thorough) with loose constants: requests <= 2*log2(V/first chunk)+6, held <= 8*occupied + 8 KiB + 2 max requests"],
                 "bounds": {"capacities": "0..=600, 2^k-65..2^k-63 (k=10..20), 4032, 4033, 8128, 8129, 2^16, 2^20", "volume_log2": 22 if q else 26, "probe_depth": 3 if q else 4}}
     if pid == "C19":
